@@ -116,21 +116,24 @@ class Network(MutableMapping):
 
         Must be overridden in a subclass if a custom interface is used.
         """
-        for node in self.nodes.values():
-            if hasattr(node, "pdo"):
-                node.pdo.stop()
-            # The other periodic transmissions end with the bus as well,
-            # their owners must not stop them again later
-            if hasattr(node.nmt, "stop_node_guarding"):
-                node.nmt.stop_node_guarding()
-            if hasattr(node.nmt, "stop_heartbeat"):
-                node.nmt.stop_heartbeat()
-        self.sync.stop()
-        if self.notifier is not None:
-            self.notifier.stop(self.NOTIFIER_SHUTDOWN_TIMEOUT)
-        if self.bus is not None:
-            self.bus.shutdown()
-        self.bus = None
+        try:
+            for node in self.nodes.values():
+                if hasattr(node, "pdo"):
+                    node.pdo.stop()
+                # The other periodic transmissions end with the bus as well,
+                # their owners must not stop them again later
+                nmt = getattr(node, "nmt", None)
+                if hasattr(nmt, "stop_node_guarding"):
+                    nmt.stop_node_guarding()
+                if hasattr(nmt, "stop_heartbeat"):
+                    nmt.stop_heartbeat()
+            self.sync.stop()
+        finally:
+            if self.notifier is not None:
+                self.notifier.stop(self.NOTIFIER_SHUTDOWN_TIMEOUT)
+            if self.bus is not None:
+                self.bus.shutdown()
+            self.bus = None
         self.check()
 
     def __enter__(self):
